@@ -324,6 +324,7 @@ def lexer_check(ctx, gen_opts, ndefs, ninputs, projs, ctors=(0,), clone=False, n
     ctx.coverage["rule"] = ("seeded random definitions (lexdef.Gen) + corpus; inputs sampled from the rule languages, "
                             "cut/perturbed, plus random strings; non-trivial = distinct (definition, input, constructor) "
                             "whose reference stream has at least two items")
+    dist["model_budget_exceeded_skipped"] = sum(1 for c in cases if c.model.get("skipped"))
     ctx.coverage.setdefault("distribution", {}).update(dict(dist, generator=gen.stats, model_rejected=n_panic,
                                                             not_wf=n_nonwf, corpus=ncorpus, batches=stats["batches"],
                                                             compile_s_max=round(stats["compile_s_max"], 1)))
@@ -473,6 +474,8 @@ def search_failing_input(ctx, c, projs, gen, n=80):
         pass
     cc = Case(c.idx, c.d, [(ct, cps, None) for ct, cps in ins])
     run_model([cc], artifacts=False)
+    if cc.model.get("skipped"):
+        return False
     run_impl([cc], os.path.join(BUILD, "work_%s_search" % ctx.prop))
     shutil.rmtree(os.path.join(BUILD, "work_%s_search" % ctx.prop), ignore_errors=True)
     if cc.compile_error is not None:
@@ -765,6 +768,9 @@ def replay(path):
     d = untuple(data["definition_data"])
     c = Case(0, d, [(data.get("constructor", 0), data["input"], data.get("clone_at"))])
     run_model([c], artifacts=False)
+    if c.model.get("skipped"):
+        print("REPLAY: the reference model exceeded its time / memory budget on this input")
+        return 0
     run_impl([c], os.path.join(BUILD, "work_replay"))
     shutil.rmtree(os.path.join(BUILD, "work_replay"), ignore_errors=True)
     if c.compile_error is not None:
